@@ -253,7 +253,8 @@ class Expander:
                 if a is None or b is None:
                     out[k] = phi([x for x in (a, b) if x is not None] + [T("undef", k)])
                 else:
-                    out[k] = a if a.key() == b.key() else phi([a, b])
+                    # keep the condition: the merged value is `a if test else b`
+                    out[k] = a if a.key() == b.key() else T("ifexp", None, [g, a, b], node=st)
             return out
         if isinstance(st, (ast.For, ast.AsyncFor)):
             self._record_names(st.iter, env)
